@@ -92,7 +92,14 @@ def install_contract(ctx, on_call=None, law=True):
     def __init__(self, refmolecule, targetmolecule, scale_factor=0.5):
         model = None
         try:
-            model = Model(refmolecule.atoms_positions, mol_edges(refmolecule),
+            # the bond graph of the model: the generator's own when it attached one to the molecule (file-based
+            # references: what the parsers made of the file is then part of what is judged), else the molecule's
+            try:
+                true_edges = object.__getattribute__(refmolecule, '_gmv_true_edges')
+                ctx.count('em_models_from_generator_graph')
+            except AttributeError:
+                true_edges = mol_edges(refmolecule)
+            model = Model(refmolecule.atoms_positions, true_edges,
                           targetmolecule.atoms_positions, scale_factor)
         except Exception as exc:  # noqa
             ctx.count('em_model_not_built')
@@ -341,22 +348,85 @@ def gen_scale(rng, cls):
     return {'one': 1.0, 'half': 0.5}.get(cls) or float(rng.uniform(0.02, 2.0))
 
 
-def build_pair(rng, edges, ref_pos, tgt_pos, name='MOL', multi_res=False):
+_files = {}
+
+
+def _scratch_dir():
+    """One scratch directory per process for file-based molecules (removed at exit)."""
+    if 'dir' not in _files:
+        import atexit
+        import shutil
+        import tempfile
+        _files['dir'] = tempfile.mkdtemp(prefix='gmv_emmon_')
+        atexit.register(shutil.rmtree, _files['dir'], ignore_errors=True)
+    return _files['dir']
+
+
+def _through_files(rng, name, names, edges, pos, resnames, resids, tag, hostile):
+    """The same molecule, but loaded by the library's own parsers from an .itp and a .gro written here: arbitrary atom
+    numbers with gaps, bonds split over bonds / constraints / pairs, and (hostile) sections that list atom numbers but
+    define no bond - [ settles ], [ exclusions ], [ angles ], [ position_restraints ] - plus comments and preprocessor
+    lines.  The bond graph the independent model uses stays the generator's."""
+    import os
+    from gaddlemaps.components import Molecule
+    d = _scratch_dir()
+    n = len(names)
+    start = int(rng.integers(1, 50))
+    nums = [start]
+    for _ in range(n - 1):
+        nums.append(nums[-1] + int(rng.choice([1, 1, 1, 2, 3])))
+    atoms = gen.simple_itp_atoms(names, resnames, resids, numbers=nums)
+    secs = {'bonds': [], 'constraints': [], 'pairs': []}
+    for a, b in edges:
+        if rng.random() < 0.5:
+            a, b = b, a
+        secs[['bonds', 'bonds', 'constraints', 'pairs'][int(rng.integers(0, 4))] if hostile else 'bonds'].append((nums[a], nums[b]))
+    bond_sections = [(k, v) for k, v in secs.items() if v]
+    extra = []
+    if hostile:
+        extra.append(('settles', f'; OW funct doh dhh\n  {nums[0]} 1 0.1 0.16330\n'))
+        if n >= 3:
+            extra.append(('angles', f'  {nums[0]} {nums[1]} {nums[2]} 2 120.0 25.0\n'))
+        if n >= 2:
+            extra.append(('exclusions', f'  {nums[0]} {nums[-1]}\n'))
+            extra.append(('position_restraints', f'  {nums[-1]} 1 1000 1000 1000\n'))
+    itp = os.path.join(d, f'{tag}_{os.getpid()}.itp')
+    gro = os.path.join(d, f'{tag}_{os.getpid()}.gro')
+    gen.write_itp(itp, name, atoms, bond_sections, rng=rng, decorate=hostile, extra_sections=extra)
+    recs = [(int(resids[i]), resnames[i], names[i], i + 1, tuple(float('%.3f' % x) for x in pos[i]), None) for i in range(n)]
+    gen.write_gro(gro, name, recs, (50.0, 50.0, 50.0))
+    return Molecule.from_files(gro, itp)
+
+
+def build_pair(rng, edges, ref_pos, tgt_pos, name='MOL', multi_res=False, files=False):
+    """(reference, target) molecules.  multi_res: several residues, names drawn with repetition so that neighbouring
+    residues may share a name (ARG ARG LEU), consecutive numbers.  files: the reference goes through the parsers (its
+    coordinates are then the 3-decimal values of the .gro file: use refm.atoms_positions, not ref_pos)."""
     n, m = len(ref_pos), len(tgt_pos)
     if multi_res and n >= 2 and m >= 2:
-        nres = int(rng.integers(2, min(n, m, 5) + 1))
+        nres = int(rng.integers(2, min(n, m, 8) + 1))
         cut_r = sorted(int(x) for x in rng.choice(np.arange(1, n), nres - 1, replace=False))
         cut_t = sorted(int(x) for x in rng.choice(np.arange(1, m), nres - 1, replace=False))
         rid_r = np.searchsorted(cut_r, np.arange(n), side='right') + 1
         rid_t = np.searchsorted(cut_t, np.arange(m), side='right') + 1
-        rn = ['RA', 'RB', 'RC', 'RD', 'RE']
-        refm = gen.make_molecule(name, gen.atom_names(n, 'B'), edges, ref_pos,
-                                 resnames=[rn[r - 1] for r in rid_r], resids=[int(r) for r in rid_r])
-        tgtm = gen.make_molecule(name, gen.atom_names(m, 'C'), gen.random_tree(rng, m), tgt_pos,
-                                 resnames=[rn[r - 1] for r in rid_t], resids=[int(r) for r in rid_t])
+        pool = ['RA', 'RB', 'RC', 'ARG', 'LEU']
+        rn = [pool[int(k)] for k in rng.integers(0, len(pool), nres)]
+        if files:
+            # a molecule read from files is recognised by its residue signatures: two residues with the same (name, size) and
+            # other atom names are outside the domain of that recognition, so file-based references get distinct names
+            rn = [f'R{k}' for k in range(nres)]
+        rres, rids = [rn[r - 1] for r in rid_r], [int(r) for r in rid_r]
+        tres, tids = [rn[r - 1] for r in rid_t], [int(r) for r in rid_t]
     else:
-        refm = gen.make_molecule(name, gen.atom_names(n, 'B'), edges, ref_pos)
-        tgtm = gen.make_molecule(name, gen.atom_names(m, 'C'), gen.random_tree(rng, m), tgt_pos)
+        rres, rids = [name[:5]] * n, [1] * n
+        tres, tids = [name[:5]] * m, [1] * m
+    tedges = gen.random_tree(rng, m)
+    if files:
+        refm = _through_files(rng, name, gen.atom_names(n, 'B'), edges, ref_pos, rres, rids, 'ref', hostile=True)
+        object.__setattr__(refm, '_gmv_true_edges', [tuple(e) for e in edges])
+    else:
+        refm = gen.make_molecule(name, gen.atom_names(n, 'B'), edges, ref_pos, resnames=rres, resids=rids)
+    tgtm = gen.make_molecule(name, gen.atom_names(m, 'C'), tedges, tgt_pos, resnames=tres, resids=tids)
     return refm, tgtm
 
 
